@@ -103,17 +103,20 @@ Fixpoint kv_ins (k : str) (v : val) (l : list (val * val)) : list (val * val) :=
   | x :: r => x :: kv_ins k v r
   end.
 
-Fixpoint generic_decode (nd : bool) (keytag : str) (d : doc) (t : ty) {struct t} : outcome val :=
+(* the decoder, parametrised by how a field's key is found from its name and
+   tags; a library uses the key function `field_key keytag` *)
+Fixpoint keyed_decode (nd : bool) (key : str -> list (str * str) -> str) (d : doc) (t : ty) {struct t}
+  : outcome val :=
   match t with
   | TBasic k name => decode_basic nd k name d
-  | TPtr t' => omap VPtr (generic_decode nd keytag d t')
+  | TPtr t' => omap VPtr (keyed_decode nd key d t')
   | TSlice e _ =>
       match d with
       | DList l =>
           omap VList ((fix go (l : list doc) : outcome (list val) :=
                          match l with
                          | [] => Ok []
-                         | x :: r => v <- generic_decode nd keytag x e ;; vs <- go r ;; Ok (v :: vs)
+                         | x :: r => v <- keyed_decode nd key x e ;; vs <- go r ;; Ok (v :: vs)
                          end) l)
       | _ => Err 40
       end
@@ -123,29 +126,34 @@ Fixpoint generic_decode (nd : bool) (keytag : str) (d : doc) (t : ty) {struct t}
           omap VMap ((fix go (l : list (str * doc)) : outcome (list (val * val)) :=
                         match l with
                         | [] => Ok []
-                        | (k, x) :: r => v <- generic_decode nd keytag x e ;; m <- go r ;; Ok (kv_ins k v m)
+                        | (k, x) :: r => v <- keyed_decode nd key x e ;; m <- go r ;; Ok (kv_ins k v m)
                         end) (rev kvs))
       | _ => Err 40
       end
   | TStruct fs _ =>
       match d with
-      | DMap kvs => omap VStruct (generic_fields nd keytag kvs fs)
+      | DMap kvs => omap VStruct (keyed_fields nd key kvs fs)
       | _ => Err 43
       end
   | _ => Err e_unmodelled
   end
-with generic_fields (nd : bool) (keytag : str) (kvs : list (str * doc)) (fs : fields) {struct fs}
-  : outcome (list val) :=
+with keyed_fields (nd : bool) (key : str -> list (str * str) -> str) (kvs : list (str * doc)) (fs : fields)
+    {struct fs} : outcome (list val) :=
   match fs with
   | FNil => Ok []
   | FCons n tags _ t r =>
-      v <- match doc_lookup (field_key keytag n tags) kvs with
-           | Some d => generic_decode nd keytag d t
+      v <- match doc_lookup (key n tags) kvs with
+           | Some d => keyed_decode nd key d t
            | None => Ok (zero t)                     (* absent key: the field is left as it is *)
            end ;;
-      vs <- generic_fields nd keytag kvs r ;;
+      vs <- keyed_fields nd key kvs r ;;
       Ok (v :: vs)
   end.
+
+Definition generic_decode (nd : bool) (keytag : str) : doc -> ty -> outcome val :=
+  keyed_decode nd (field_key keytag).
+Definition generic_fields (nd : bool) (keytag : str) : list (str * doc) -> fields -> outcome (list val) :=
+  keyed_fields nd (field_key keytag).
 
 (* ---- TagCopyingMangler (recursively through struct, *struct, []struct, [N]struct) ---- *)
 Definition copy_tag (src new : str) (tags : list (str * str)) : list (str * str) :=
